@@ -39,7 +39,7 @@ func replayFile(path string) {
 		}
 	}
 	for _, v := range r.Variants {
-		x := newRecv(w, mkVariant(r.Content, v))
+		x := newRecvOn(w, mkVariant(r.Content, v))
 		fmt.Printf("variant nil=%v cap=len+%d wrapper=%s content=%v\n", v.Nil, v.Spare, r.Wrapper, r.Content)
 		for _, o := range r.Ops {
 			_, _, s := observe(o, x)
